@@ -1433,7 +1433,7 @@ class SqlFactory(object):
             if not is_not_null:
                 column_def += " not null"
 
-            if default_value is not None and len(default_value) > 0:
+            if default_value is not None and str(default_value) != "":
                 column_def += " default " + str(default_value)
 
             result += column_def
